@@ -120,12 +120,13 @@ fn check_c08(seed: u64, tier: &str) -> i32 {
     let mut ev = Evidence::new(
         "C08", tier, seed, "fault_enumeration",
         "layer A: (program, sink stack, teardown, fault plan) with the real serializer writing into a simulated fd; \
-         per program and stack every per-call acceptance limit of the set and one fault (short 1 / short len-1 / EINTR / hard / Ok(0)) \
-         at each individual write call in turn are enumerated, plus seeded random plans. A case is non-trivial only if at least one \
+         per program and stack every per-call acceptance limit of the set and one fault (short 1 / short len-1 / EINTR / hard / Ok(0) / \
+         one-off EAGAIN-ETIMEDOUT-EIO) at each individual write call in turn are enumerated, one-off errors also inside a request that is being \
+         accepted piecewise, plus seeded random plans. A case is non-trivial only if at least one \
          injected fault actually fired inside the serialize/flush operation; distinct = distinct (image digest, stack, teardown, plan).",
     );
     ev.assumptions = vec![
-        "the simulated fd honours the std::io::Write contract (1 <= n <= len on success; Interrupted takes nothing; hard errors are sticky)".into(),
+        "the simulated fd honours the std::io::Write contract (1 <= n <= len on success; Interrupted takes nothing; hard errors are sticky; one-off errors take nothing and the next call is served)".into(),
         "std BufWriter/LineWriter are the real ones; close() errors are out of scope".into(),
         "reference bytes come from the same build's serializer writing into a Vec (what the bytes are is C04's business)".into(),
     ];
@@ -144,14 +145,14 @@ fn check_c08(seed: u64, tier: &str) -> i32 {
 fn check_cycle(which: cycle::Which, seed: u64, tier: &str) -> i32 {
     let rule = match which {
         cycle::Which::C03 =>
-            "save/load cycles: a Program (compiler output from generated and corpus sources, corpus images, directly built structurally valid models)              is serialized by the real serializer through a sink stack under a transient-only write plan onto the simulated disk, loaded by the real              loader through a simulated source under a chunking/EINTR read plan (raw and through BufReader), saved again and, where it is a program,              executed before and after. Non-trivial = a write fault or a read cut/EINTR actually fired during the cycle; distinct = distinct              (image digest, writer, write stack, write plan, read stack, read plan).",
+            "save/load cycles: a Program (compiler output from generated and corpus sources, corpus images, directly built structurally valid models)              is serialized by the real serializer through a sink stack under a transient-only write plan onto the simulated disk, loaded by the real              loader through a simulated source under a chunking/EINTR read plan (raw and through BufReader), saved again and, where it is a program,              executed before and after; plus sticky / one-off hard read errors at seeded read calls (a failed load is allowed, a successful one must yield the saved program). Non-trivial = a write fault, a read cut/EINTR or a read error actually fired during the cycle; distinct = distinct              (image digest, writer, write stack, write plan, read stack, read plan).",
         cycle::Which::C04 =>
-            "exchange cycles with a simulated foreign implementation of the documented layout (independent encoder + strict decoder): (a) every image              FML emits is decoded by the foreign node and must denote the same program with no trailing bytes; (b) every image the foreign node writes              is loaded by FML under a chunking/EINTR read plan, must denote the same program and re-save byte-identically. Non-trivial = a write fault              or a read cut/EINTR actually fired during the cycle; distinct = distinct (image digest, writer, stacks, plans).",
+            "exchange cycles with a simulated foreign implementation of the documented layout (independent encoder + strict decoder): (a) every image              FML emits is decoded by the foreign node and must denote the same program with no trailing bytes; (b) every image the foreign node writes              is loaded by FML under a chunking/EINTR read plan, must denote the same program and re-save byte-identically; images whose constant count makes them start like something else (#!, BOM, gzip/zip/ELF, line ends) are executed through the CLI. Non-trivial = a write fault, a read cut/EINTR or a read error actually fired during the cycle; distinct = distinct (image digest, writer, stacks, plans).",
     };
     let mut ev = Evidence::new(which.id(), tier, seed, "exploration", rule);
     ev.assumptions = vec![
         "the foreign codec in harness/foreign.rs is a faithful reading of the documented layout (it shares no code with FML's serializer)".into(),
-        "behaviour on corrupted or truncated images is not decided (no property states it)".into(),
+        "behaviour on corrupted or truncated images is not decided (no property states it); under a read *error* only the narrow claim is made: fail, or load the saved program".into(),
         "the format-level model ignores code start addresses, which the property does not promise".into(),
     ];
     let mut violations = cycle::run_layer_a(which, seed, tier, &mut ev);
@@ -169,7 +170,7 @@ fn check_cycle(which: cycle::Which, seed: u64, tier: &str) -> i32 {
 fn check_c11(seed: u64, tier: &str) -> i32 {
     let mut ev = Evidence::new(
         "C11", tier, seed, "exploration",
-        "per source program one baseline observation (parse -> compile -> run + execute with --heap-log, each a real child process under the shim) and          N observations under entropy tuples drawn from the case seed: hash seed (getrandom), scripted wall clock (steady, stalled, backward/forward jumps,          far future), heap layout (seeded junk allocations), environment block, ASLR on/off, input via file or stdin, argv0, cwd depth, debug/release build;          plus three in-process compilations in fresh threads. Every observation differs from the baseline in at least one declared entropy source, so every          evaluation is non-trivial; distinct = distinct (source digest, tuple).",
+        "per source program one baseline observation (parse -> compile -> run + execute with --heap-log, each a real child process under the shim) and          N observations under entropy tuples drawn from the case seed: hash seed (getrandom), scripted wall clock (steady, stalled, backward/forward jumps,          far future), heap layout (seeded junk allocations), environment block, ASLR on/off, input via file or stdin, argv0, cwd depth, stale files at output paths, the delivery schedule of every stage's bytes (io_plan), debug/release build;          plus three in-process compilations in fresh threads. Every observation differs from the baseline in at least one declared entropy source, so every          evaluation is non-trivial; distinct = distinct (source digest, tuple).",
     );
     ev.assumptions = vec![
         "entropy reaches the process only through getrandom, the wall clock, the address-space layout, the environment, argv and cwd (FML has no threads, signals or network)".into(),
@@ -207,7 +208,7 @@ fn check_c10(seed: u64, tier: &str) -> i32 {
 fn check_c16(seed: u64, tier: &str) -> i32 {
     let mut ev = Evidence::new(
         "C16", tier, seed, "exploration",
-        "(A) allocation histories: generated allocating programs (and the corpus) run on the real VM with the real heap writing a real log file, for heap sizes          {0,1,2,16,1024,65536,1048576} MB, against the same run without flags; the log is parsed strictly and compared record by record with the enumerated heap          (append-only, index order = creation order), with the allocation count the generator knows by construction, and with a batch-wide shape->increment table.          (B) `fml run|execute --heap-log PATH [--heap-size N]` as child processes under scripted clocks (steady, stalled, backward/forward jumps, far future, near epoch),          short writes/EINTR on the log fd, nested/absent log directories, and programs that fail part-way, against the same command without flags and the in-process history.          Non-trivial = the program created at least one array/object (A) / the flagged child ran to its end state (B); distinct = distinct (source digest, configuration).",
+        "(A) allocation histories: generated allocating programs (and the corpus) run on the real VM with the real heap writing a real log file, for heap sizes          {0,1,2,16,1024,65536,1048576} MB, against the same run without flags; the log is parsed strictly and compared record by record with the enumerated heap          (append-only, index order = creation order), with the allocation count the generator knows by construction, and with a batch-wide shape->increment table.          (B) `fml run|execute --heap-log PATH [--heap-size N]` as child processes under scripted clocks (steady, stalled, backward/forward jumps, far future, near epoch),          short writes/EINTR on the log fd, hard errors on the guest's stdout (the log must hold every allocation made before the last byte that arrived), nested/absent log directories, and programs that fail part-way, against the same command without flags and the in-process history.          Non-trivial = the program created at least one array/object (A) / the flagged child ran to its end state (B); distinct = distinct (source digest, configuration).",
     );
     ev.assumptions = vec![
         "the heap is append-only, so enumerating indices 0.. gives the creation history".into(),
@@ -226,12 +227,13 @@ fn check_c16(seed: u64, tier: &str) -> i32 {
 fn check_c06(seed: u64, tier: &str) -> i32 {
     let mut ev = Evidence::new(
         "C06", tier, seed, "exploration",
-        "the pipeline as separate child processes connected by channels the simulator owns: per program (generated with hostile strings/identifiers, nesting templates          of depth 1..300, the in-repo corpus) one `fml run` per profile and N staged pipelines under configuration tuples {json,lisp,yaml} x {explicit --format incl. aliases          and case variants, format inferred from -o extension / input extension} x parse input {file, stdin} x parse output {-o FILE, -o DIR with derived name, stdout>file,          stdout|pipe} x compile input {file, stdin + --input-format} x compile output {-o FILE, -o DIR, stdout>file, stdout|pipe} x execute input {file, stdin} x {debug, release},          plus the wrapper script; each stage under a seeded transient plan (per-call limits, short reads/writes, EINTR on stdin/stdout/file fds). In-process: each format          reloads to the identical AST. Every staged pipeline is a distinct configuration of channels and faults, so all are non-trivial; distinct = distinct (source digest, tuple).",
+        "the pipeline as separate child processes connected by channels the simulator owns: per program (generated with hostile strings/identifiers, nesting templates          of depth 1..300, the in-repo corpus) one `fml run` per profile and N staged pipelines under configuration tuples {json,lisp,yaml} x {explicit --format incl. aliases          and case variants, format inferred from -o extension / input extension} x parse input {file, stdin} x parse output {-o FILE, -o DIR with derived name, stdout>file,          stdout|pipe} x compile input {file, stdin + --input-format} x compile output {-o FILE, -o DIR, stdout>file, stdout|pipe} x execute input {file, stdin} x {debug, release},          plus the wrapper script; each stage under a seeded transient plan (per-call limits, short reads/writes, EINTR on stdin/stdout/file fds); plus hard-fault pipelines: one stage gets a hard or one-off I/O error placed inside its own I/O (from the fault-free stage's call counts, biased to the last calls) under the narrow oracle 'may fail; exit 0 only with exactly the right output'. In-process: each format          reloads to the identical AST. Every staged pipeline is a distinct configuration of channels and faults, so all are non-trivial; distinct = distinct (source digest, tuple).",
     );
     ev.assumptions = vec![
         "stages run one after the other with captured buffers: each stage reads its whole input before producing output, so this explores the behaviours of concurrent processes".into(),
         "the reference bytecode is the in-process compile of the parsed source by the same build (what `run` compiles)".into(),
         "a program that `run` itself does not get past parsing/compiling obliges no stage".into(),
+        "under a hard I/O error nothing is claimed about a stage that fails; an unwritable stdout of the *guest* program is no property's subject and is not injected".into(),
     ];
     need_shim();
     let violations = c06::run(seed, tier, &mut ev);
